@@ -342,13 +342,47 @@ def rule_c05_call_layer(ctx):
         # Call::try_response is impure: use its summary instead of an application
         I2.opaque.discard("Call::<RecvResponse, B>::try_response")
         I2.summarize = {"Call::<RecvResponse, B>::try_response"}
+        I2.event_hook = call_recorder(r"Call::<RecvResponse, B>::try_response$")
         outs = I2.run(fl, [ref(FLOW), ref(("OBJ", "input"))], init2)
         bad = []
         n = 0
+        INPUT = ("term", ("in", "input"))
         for o in outs:
             if o.kind != "return":
                 continue
             rs = shape(o.ret)
+            # one flow-level call may look at the input more than once (e.g. skip a late 100 and parse what follows): then the
+            # k-th look must start where the earlier ones stopped and the reported count must be the sum of all of them
+            evs = [e for e in o.state.events if e[0].endswith("try_response")]
+            multi = rs.startswith("Ok(") and len(evs) >= 2
+            if multi:
+                c = o.ret.get((("v", "Ok"), ("f", "0"), ("f", "0")))
+
+                def flat(x):
+                    if x and x[0] == "term" and x[1][0] == "arith" and x[1][1] == "Add":
+                        return flat(x[1][2]) + flat(x[1][3])
+                    return [x]
+                parts = flat(c) if c else []
+                is_count = [p_ for p_ in parts if p_ and p_[0] == "term" and p_[1][0] == "proj" and p_[1][1][0] == "call"
+                            and p_[1][1][1].endswith("try_response") and p_[1][2][-1] == ("f", "0")]
+                # a look that answered `need more` consumed nothing (and is the last one)
+                nsome = 0
+                for k, v in o.state.facts.items():
+                    if k[0] == "discr" and k[1][0] == "proj" and k[1][1][0] == "call" and k[1][1][1].endswith("try_response") \
+                            and k[1][2] == (("v", "Ok"), ("f", "0")) and v[1] == frozenset(["Some"]):
+                        nsome += 1
+                parts = [p_ for p_ in parts if p_ != ("int", 0)]
+                if len(parts) != nsome or len(is_count) != nsome or len(set(map(repr, is_count))) != nsome:
+                    bad.append("%d looks at the input in one call, but the reported count is not the sum of what each of them consumed (%s)" % (
+                        len(evs), repr(c)[:140]))
+                else:
+                    for i_, e in enumerate(evs):
+                        ra = repr(e[1][1])
+                        if i_ == 0:
+                            if e[1][1] != INPUT:
+                                bad.append("the first look at the input is not at its start")
+                        elif not ("'slice'" in ra and "'start'" in ra and all(repr(p_) in ra for p_ in is_count[:min(i_, len(is_count))])):
+                            bad.append("look %d at the input does not start where the earlier ones stopped" % (i_ + 1))
             inner = [v for k, v in o.state.facts.items() if k[0] == "discr" and "Call::<RecvResponse, B>::try_response" in repr(k)]
             if rs.startswith("Ok("):
                 n += 1
@@ -357,7 +391,7 @@ def rule_c05_call_layer(ctx):
                     st_ = o.state.mem[FLOW].get((("f", "inner"), ("f", "status"), ("$v",)))
                     if st_ is not None:
                         bad.append("need-more path stores the status")
-                elif not (c and c[0] == "term" and "Call::<RecvResponse, B>::try_response" in repr(c)):
+                elif not multi and not (c and c[0] == "term" and "Call::<RecvResponse, B>::try_response" in repr(c)):
                     bad.append("consumed count %r is not forwarded from the call layer" % (c,))
         ctx.check(n >= 2 and not bad, "R05.6", "flow-layer", "flow layer: need-more -> (0, None) with nothing stored; otherwise the call layer's count is forwarded unchanged",
                   loc=body_loc(fl), detail=bad[:4])
